@@ -50,6 +50,8 @@ func genMulti(g *fw.GenCtx) {
 		g.Emit("multi", mcase{Fam: "multi", From: a, To: min(a+step, total)})
 	}
 	g.Emit("multi", mcase{Fam: "content"})
+	g.Emit("multi", mcase{Fam: "persistent"})
+	g.Emit("multi", mcase{Fam: "history"})
 }
 
 type mws struct {
@@ -96,8 +98,15 @@ func fmtOne(data []byte) ([]byte, bool, error) {
 }
 
 func runMultiCase(oc *fw.Outcome, mc mcase) {
-	if mc.Fam == "content" {
+	switch mc.Fam {
+	case "content":
 		runContent(oc)
+		return
+	case "persistent":
+		runPersistent(oc)
+		return
+	case "history":
+		runHistory(oc)
 		return
 	}
 	kinds := multiKinds()
@@ -183,6 +192,12 @@ func runContent(oc *fw.Outcome) {
 		fmt.Fprintf(&big4, "sub g%d {\n  set req.http.A%d = \"%s\";\n}\n\n", i, i, strings.Repeat("z", 300))
 	}
 	classes := []fileKind{
+		// the formatted text has exactly the length of the source, and differs from it
+		{"same-size-different-content", "sub vcl_recv {\n    set req.http.A=\"1\";\n}\n"},
+		{"same-size-different-content-large", strings.Repeat("sub vcl_recv {\n    set req.http.A=\"1\";\n}\n", 300)},
+		{"percent-signs", "sub vcl_recv {\n    set req.http.X   =   \"a%20b\";\n  # 100% of the traffic %s %d %v\n}\n"},
+		{"fewer-lines-after-format", "sub vcl_recv {\n  set req.http.A = \"1\";\n}\n\n\n\nsub vcl_deliver {\n}\n"},
+		{"more-lines-after-format", "sub vcl_recv { set req.http.A = \"1\"; if (req.http.B) { esi; } }\n"},
 		{"crlf", "sub vcl_recv {\r\nset req.http.A=\"a\";\r\nif(req.http.B){\r\nunset req.http.B;\r\n}\r\n}\r\n"},
 		{"crlf-in-comment-only", "sub vcl_recv {\n# a comment line\r\nset req.http.A=\"a\";\n}\n"},
 		{"crlf-block-comment", "sub vcl_recv {\n/* a\r\n b */\nset req.http.A=\"a\";\n}\n"},
@@ -237,5 +252,125 @@ func runContent(oc *fw.Outcome) {
 		}
 		oc.Tag(fmt.Sprintf("content:%s/fmt-ok=%v/w-exit=%d", k.name, ok, rr.exit))
 		oc.NonTrivialS("content|" + k.name)
+	}
+}
+
+// straceAll runs `falco fmt -w FILE` under strace with a fault on EVERY call of the syscalls (no
+// occurrence filter: a retry of the failed call fails as well). landed reports whether the trace shows
+// the injection.
+func straceAll(w *mws, p string, inject string) (runResult, bool) {
+	tlog := filepath.Join(w.root, "trace.log")
+	os.WriteFile(tlog, nil, 0o666)
+	os.Chmod(tlog, 0o666)
+	argv := []string{"strace", "-f", "-o", tlog, "-e", "trace=" + traceSet, "-e", "inject=" + inject, falcoBin(), "fmt", "-w", p}
+	rr := runCmd(w.dir, true, argv, 120*time.Second)
+	tr, _ := os.ReadFile(tlog)
+	landed := bytes.Contains(tr, []byte("(INJECTED)")) || bytes.Contains(tr, []byte("+++ killed by SIGKILL"))
+	return rr, landed
+}
+
+func runPersistent(oc *fw.Outcome) {
+	src := []byte("sub vcl_recv {\nset req.http.A=\"b\";\n   if(req.http.B){ unset req.http.B; }\n}\n")
+	out, ok, err := fmtOne(src)
+	oc.Evals++
+	if err != nil || !ok {
+		oc.Inconc = append(oc.Inconc, fmt.Sprintf("persistent: reference run failed: %v", err))
+		return
+	}
+	classes := map[string]string{
+		"rename":   "rename,renameat,renameat2",
+		"sync":     "fsync,fdatasync",
+		"chmod":    "fchmod,fchmodat,chmod",
+		"unlink":   "unlink,unlinkat",
+		"link":     "link,linkat,symlinkat",
+		"truncate": "ftruncate,truncate",
+	}
+	for name, calls := range classes {
+		for _, errno := range []string{"EIO", "EACCES", "ENOSPC"} {
+			w, err := newMws()
+			if err != nil {
+				oc.Inconc = append(oc.Inconc, "workspace: "+err.Error())
+				return
+			}
+			p := w.put("main.vcl", src)
+			rr, landed := straceAll(w, p, calls+":error="+errno)
+			oc.Evals++
+			after, rerr := os.ReadFile(p)
+			// debris next to the file is not judged; the file itself is
+			os.RemoveAll(w.root)
+			key := "persistent/" + name + "/" + errno
+			detail := map[string]any{"syscalls": calls, "errno": errno, "exit": rr.exit, "stderr": clip(string(rr.stderr), 600), "after_len": len(after), "landed": landed}
+			if !landed {
+				oc.Tag("persistent:not-reached/" + name)
+				continue
+			}
+			isOrig := rerr == nil && bytes.Equal(after, src)
+			isFmt := rerr == nil && bytes.Equal(after, out)
+			failed := rr.exit != 0 || rr.killed
+			switch {
+			case rerr != nil:
+				oc.Violate(key+"/file-gone", "with every "+name+" call failing ("+errno+") FILE does not exist any more after `fmt -w`: "+rerr.Error(), detail)
+			case failed && !isOrig:
+				oc.Violate(key+"/failed-but-changed", "with every "+name+" call failing ("+errno+") the command failed but FILE no longer holds its original bytes", detail)
+			case !isOrig && !isFmt:
+				oc.Violate(key+"/neither", "with every "+name+" call failing ("+errno+") FILE is neither its original bytes nor the formatted text", detail)
+			}
+			oc.Tag("persistent:landed/" + name)
+			oc.NonTrivialS(key)
+		}
+	}
+}
+
+// runHistory: a run that is killed while it writes (SIGKILL at fsync / at rename / at the first write
+// of the new content) leaves whatever it leaves; the file then gets NEW, shorter content and a
+// fault-free `fmt -w` must produce exactly what `falco fmt FILE` prints for the new content.
+func runHistory(oc *fw.Outcome) {
+	var big strings.Builder
+	for i := 0; i < 40; i++ {
+		fmt.Fprintf(&big, "sub s%d {\nset req.http.A%d=\"%s\";\n}\n", i, i, strings.Repeat("x", 60))
+	}
+	short := []byte("sub vcl_recv {\nset req.http.A=\"b\";\n}\n")
+	outShort, ok, err := fmtOne(short)
+	oc.Evals++
+	if err != nil || !ok {
+		oc.Inconc = append(oc.Inconc, fmt.Sprintf("history: reference run failed: %v", err))
+		return
+	}
+	for _, kill := range []string{"fsync,fdatasync", "rename,renameat,renameat2", "fchmod,fchmodat,chmod", "close"} {
+		w, err := newMws()
+		if err != nil {
+			oc.Inconc = append(oc.Inconc, "workspace: "+err.Error())
+			return
+		}
+		p := w.put("main.vcl", []byte(big.String()))
+		_, landed := straceAll(w, p, kill+":signal=KILL")
+		oc.Evals++
+		if !landed {
+			oc.Tag("history:kill-not-reached/" + kill)
+		}
+		// what the killed run left in the directory stays; the file gets new content
+		os.WriteFile(p, short, 0o644)
+		os.Chown(p, nobody, nobody)
+		rr := runCmd(w.dir, true, []string{falcoBin(), "fmt", "-w", p}, 120*time.Second)
+		oc.Evals++
+		after, _ := os.ReadFile(p)
+		entries, _ := os.ReadDir(w.dir)
+		var names []string
+		for _, e := range entries {
+			names = append(names, e.Name())
+		}
+		os.RemoveAll(w.root)
+		key := "history/after-kill-at-" + strings.SplitN(kill, ",", 2)[0]
+		detail := map[string]any{"killed_at": kill, "exit": rr.exit, "stderr": clip(string(rr.stderr), 600), "after_len": len(after), "formatted_len": len(outShort), "directory": names, "after_head": clip(string(after), 300)}
+		switch {
+		case rr.exit != 0 && !bytes.Equal(after, short):
+			oc.Violate(key+"/failed-but-changed", "the run after a killed run failed and FILE no longer holds its bytes", detail)
+		case rr.exit == 0 && !bytes.Equal(after, outShort):
+			oc.Violate(key+"/neither", fmt.Sprintf("the run after a killed run reports success but FILE (%d bytes) is not what `falco fmt FILE` prints (%d bytes)", len(after), len(outShort)), detail)
+		}
+		if landed {
+			oc.Tag("history:" + key)
+			oc.NonTrivialS(key)
+		}
 	}
 }
